@@ -136,13 +136,13 @@ def _digest(res):
     return h.hexdigest()
 
 
-def _fit_b():
+def _fit_b(eps_b=0.0):
     import fast_ticc
     os.environ.pop('CUPCAKE_ENABLE_MULTIPROCESSING', None)
     np.random.seed(1)
     random.seed(1)
     return fast_ticc.ticc_labels(_data(2, per=25), window_size=2, num_clusters=2, iteration_limit=3, min_cluster_size=3,
-                                 sparsity_weight=0.1, label_switching_cost=5.0)
+                                 sparsity_weight=0.1, label_switching_cost=5.0, min_meaningful_covariance=eps_b)
 
 
 def _hyper_history_replay(w):
@@ -153,7 +153,9 @@ def _hyper_history_replay(w):
     import fast_ticc
     inp = w.get('inputs') or {}
     from .util import flt
-    eps = abs(flt(inp.get('eps_a', 1e-9)))
+    # the witness's floors, capped at a value the data can bear (a floor of 1 would zero whole matrices)
+    eps = min(abs(flt(inp.get('eps_a', 1e-9))), 0.05)
+    eps_b = min(abs(flt(inp.get('eps_b', 0.0))), 0.05)
     np.random.seed(3)
     random.seed(3)
     rng = np.random.default_rng(2)
@@ -163,15 +165,15 @@ def _hyper_history_replay(w):
                               sparsity_weight=0.2, label_switching_cost=3.0, min_meaningful_covariance=eps)
     except Exception:
         pass
-    here = _digest(_fit_b())
-    p = subprocess.run([sys.executable, '-c', 'from replay.c14 import _fit_b, _digest; print("DIGEST", _digest(_fit_b()))'],
+    here = _digest(_fit_b(eps_b))
+    p = subprocess.run([sys.executable, '-c', 'from replay.c14 import _fit_b, _digest; print("DIGEST", _digest(_fit_b(%r)))' % (eps_b,)],
                        capture_output=True, text=True, timeout=600)
     fresh = [l.split()[1] for l in p.stdout.splitlines() if l.startswith('DIGEST')]
     if not fresh:
         return {'reproduced': False, 'signature': None, 'observed': {'fresh_run_failed': p.stderr[-300:]}}
     bad = here != fresh[-1]
     return {'reproduced': bad, 'signature': 'result-depends-on-earlier-calls' if bad else None,
-            'observed': {'earlier_call_floor': eps, 'after_history': here[:16], 'fresh_process': fresh[-1][:16]}}
+            'observed': {'earlier_call_floor': eps, 'floor_of_the_call_under_test': eps_b, 'after_history': here[:16], 'fresh_process': fresh[-1][:16]}}
 
 
 def replay(w):
